@@ -29,6 +29,7 @@ type VerifPublisher struct {
 	nodes  cache.Indexer
 	shards cache.Indexer
 	client *vcfake.Clientset
+	hidden map[string]bool // NodeShards the informer cache does not show (yet)
 }
 
 // VerifNewPublisher builds the controller state Initialize + applyShardingConfig would build.
@@ -81,6 +82,9 @@ func (p *VerifPublisher) refreshShards() {
 	}
 	items := make([]interface{}, 0, len(l.Items))
 	for i := range l.Items {
+		if p.hidden[l.Items[i].Name] {
+			continue
+		}
 		items = append(items, &l.Items[i])
 	}
 	if err := p.shards.Replace(items, ""); err != nil {
@@ -140,4 +144,33 @@ func (p *VerifPublisher) Calculated() map[string][]string {
 		out[n] = append([]string{}, p.sc.assignmentCache.Assignments[n].NodesDesired...)
 	}
 	return out
+}
+
+// HideShards makes the NodeShard lister lag: the named objects are left out of
+// the informer cache (whether or not they exist on the API server) until the next call.
+func (p *VerifPublisher) HideShards(names []string) {
+	p.hidden = map[string]bool{}
+	for _, n := range names {
+		p.hidden[n] = true
+	}
+	p.refreshShards()
+}
+
+// DeleteShard removes a NodeShard from the fake API server (somebody deleted it).
+func (p *VerifPublisher) DeleteShard(name string) {
+	_ = p.client.ShardV1alpha1().NodeShards().Delete(context.Background(), name, metav1.DeleteOptions{})
+	p.refreshShards()
+}
+
+// ClearAssignmentCache is what reloadFromConfigMap does to the assignment cache.
+func (p *VerifPublisher) ClearAssignmentCache() {
+	p.sc.cacheMutex.Lock()
+	defer p.sc.cacheMutex.Unlock()
+	p.sc.assignmentCache = &AssignmentCache{Assignments: make(map[string]*ShardAssignment)}
+}
+
+// ProcessKey is one worker item: the key is enqueued and the queue drained.
+func (p *VerifPublisher) ProcessKey(name string) {
+	p.sc.enqueueShard(name)
+	p.Drain()
 }
